@@ -6,6 +6,7 @@ import (
 	"fmt"
 	"os"
 	"path/filepath"
+	"runtime"
 	"sort"
 	"sync"
 	"syscall"
@@ -14,17 +15,18 @@ import (
 
 // Prop describes one property check.
 type Prop struct {
-	ID          string
-	Level       string // exploration | fault_enumeration
-	Rule        string // how cases are generated and what makes one non-trivial
-	Exhaustive  func(tier string) bool
-	Assumptions []string
-	Shards      int                     // worker processes (0 = 16)
-	Race        bool                    // build with -race
-	NoHangMonitor bool                  // cases are concurrent batches; CPU-per-case watchdog does not apply
-	MinEvents   map[string]int64        // observation counters that must be reached, else inconclusive
-	Run         func(c *Ctx)            // executed in each worker
-	Post        func(d *Merged) []string // optional driver-side checks on merged observations; returns inconclusive reasons
+	ID            string
+	Level         string // exploration | fault_enumeration
+	Rule          string // how cases are generated and what makes one non-trivial
+	Exhaustive    func(tier string) bool
+	Assumptions   []string
+	Shards        int                      // worker processes (0 = 16)
+	Race          bool                     // build with -race
+	NoHangMonitor bool                     // cases are concurrent batches; CPU-per-case watchdog does not apply
+	BlockingOK    bool                     // the worker legitimately waits without using CPU (for a child process): no blocked-case monitor
+	MinEvents     map[string]int64         // observation counters that must be reached, else inconclusive
+	Run           func(c *Ctx)             // executed in each worker
+	Post          func(d *Merged) []string // optional driver-side checks on merged observations; returns inconclusive reasons
 }
 
 // Props is the registry, filled by package props.
@@ -45,13 +47,14 @@ type Ctx struct {
 	NShards int
 	WorkDir string
 
-	caseNo      int64
-	skipSet     map[int64]bool
-	only        int64
-	cur         []byte
-	mu          sync.Mutex
-	rep         report
-	caseStart   time.Time
+	caseNo    int64
+	skipSet   map[int64]bool
+	decoy     bool // run core.Decoy between cases
+	only      int64
+	cur       []byte
+	mu        sync.Mutex
+	rep       report
+	caseStart time.Time
 }
 
 type report struct {
@@ -94,6 +97,9 @@ func (c *Ctx) Rand(i int, salt ...uint64) *Rand {
 // the case must be skipped (resume after a worker death, or replay of another case).
 func (c *Ctx) Begin(desc string) bool {
 	c.caseNo++
+	if c.decoy && c.caseNo%2048 == 0 {
+		Decoy() // another engine is configured and used while this check's engines exist
+	}
 	if c.only != 0 && c.caseNo != c.only {
 		return false
 	}
@@ -178,7 +184,9 @@ func (c *Ctx) Violate(key, what string, witness map[string]any) {
 // NumViolations returns the number of distinct keys so far.
 func (c *Ctx) NumViolations() int { c.mu.Lock(); defer c.mu.Unlock(); return len(c.rep.Viol) }
 
-func shardBase(dir string, shard int) string { return filepath.Join(dir, fmt.Sprintf("shard-%02d", shard)) }
+func shardBase(dir string, shard int) string {
+	return filepath.Join(dir, fmt.Sprintf("shard-%02d", shard))
+}
 
 func openCur(path string) ([]byte, error) {
 	f, err := os.OpenFile(path, os.O_RDWR|os.O_CREATE, 0o644)
@@ -218,6 +226,15 @@ var syscallSIGQUIT = syscall.SIGQUIT
 // HangCPUSeconds is the CPU time one case may use before the worker declares a hang.
 const HangCPUSeconds = 60
 
+// BlockedTicks is the number of consecutive half-second observations without a new case and without CPU use after
+// which the worker declares the case blocked.
+const BlockedTicks = 90
+
+func dumpGoroutines() {
+	buf := make([]byte, 1<<20)
+	os.Stderr.Write(buf[:runtime.Stack(buf, true)])
+}
+
 // RunWorker executes one shard in this process and writes its result files.
 func RunWorker(p *Prop, tier string, seed uint64, shard, nshards int, dir string, skip map[int64]bool, only int64) int {
 	c := &Ctx{Prop: p.ID, Tier: tier, Quick: tier == "quick", Seed: seed, Shard: shard, NShards: nshards, WorkDir: dir,
@@ -230,6 +247,7 @@ func RunWorker(p *Prop, tier string, seed uint64, shard, nshards int, dir string
 	// hang monitor: CPU time (not wall clock) spent while the case number stays the same
 	go func() {
 		last, lastCPU := int64(-1), 0.0
+		idleTicks, idleCPU := 0, 0.0
 		for {
 			time.Sleep(500 * time.Millisecond)
 			var no int64
@@ -239,7 +257,18 @@ func RunWorker(p *Prop, tier string, seed uint64, shard, nshards int, dir string
 			cpu := cpuSeconds()
 			if no != last {
 				last, lastCPU = no, cpu
+				idleTicks, idleCPU = 0, cpu
 				continue
+			}
+			// blocked: the case neither ends nor uses the processor (a lock that is never released, a wait that nothing
+			// ends). The criterion is "no progress of any kind over BlockedTicks observations", not a deadline on work:
+			// a case that computes, however slowly, resets it.
+			if cpu-idleCPU > 0.05 {
+				idleTicks, idleCPU = 0, cpu
+			} else if idleTicks++; no > 0 && idleTicks >= BlockedTicks && !p.BlockingOK {
+				fmt.Fprintf(os.Stderr, "worker %d: case %d has neither ended nor used the processor during %d observations; declaring it blocked\n", shard, no, BlockedTicks)
+				dumpGoroutines()
+				os.Exit(4)
 			}
 			if no > 0 && cpu-lastCPU > HangCPUSeconds && !p.NoHangMonitor {
 				fmt.Fprintf(os.Stderr, "worker %d: case %d used more than %d CPU-seconds; declaring hang\n", shard, no, HangCPUSeconds)
@@ -247,7 +276,10 @@ func RunWorker(p *Prop, tier string, seed uint64, shard, nshards int, dir string
 			}
 		}
 	}()
+	Decoy()
+	c.decoy = !p.Race
 	p.Run(c)
+	Decoy()
 	return c.finish(base)
 }
 
